@@ -235,3 +235,93 @@ theorem quoteattr_spec (s : Str) :
     exact h1 (by simpa using h)
 
 end Proofs.Escape
+
+namespace Proofs.Escape
+open Py Xs.Sax Spec.XmlNs
+
+/-- per character image of `escape(content, {"\r": "&#13;"})` -/
+def escTextChar (c : Char) : Str :=
+  if c = '&' then amp else if c = '>' then gt else if c = '<' then lt else if c = '\r' then ent13 else [c]
+
+theorem escapeText_eq (s : Str) : escapeText s = s.flatMap escTextChar := by
+  unfold escapeText
+  rw [escape_eq, replaceChar_flatMap]
+  congr 1
+  funext c
+  by_cases h1 : c = '&'
+  · subst h1; decide
+  · by_cases h2 : c = '>'
+    · subst h2; decide
+    · by_cases h3 : c = '<'
+      · subst h3; decide
+      · by_cases h5 : c = '\r'
+        · subst h5; decide
+        · simp [escChar, escTextChar, h1, h2, h3, h5, replaceChar]
+
+theorem decodeRefs_escText (s : Str) : decodeRefs (s.flatMap escTextChar) = some s := by
+  induction s with
+  | nil => rfl
+  | cons c r ih =>
+    simp only [List.flatMap_cons]
+    by_cases h1 : c = '&'
+    · subst h1; simp [escTextChar, amp, decodeRefs, ih]
+    · by_cases h2 : c = '>'
+      · subst h2; simp [escTextChar, gt, decodeRefs, ih]
+      · by_cases h3 : c = '<'
+        · subst h3; simp [escTextChar, lt, decodeRefs, ih]
+        · by_cases h5 : c = '\r'
+          · subst h5; simp [escTextChar, ent13, decodeRefs, ih]
+          · simp only [escTextChar, h1, h2, h3, h5, if_false, List.singleton_append]
+            rw [decodeRefs_plain c _ h1 h3, ih]
+            rfl
+
+theorem escTextChar_forbidden (c x : Char) (hx : x ∈ escTextChar c) : x ≠ '<' ∧ x ≠ '\r' := by
+  unfold escTextChar at hx
+  repeat' (first | (split at hx; · (refine ⟨?_, ?_⟩ <;> (intro e; subst e; revert hx; decide))) | skip)
+  simp at hx
+  subst hx
+  refine ⟨?_, ?_⟩ <;> assumption
+
+/-- character data as the repaired native writer writes it -/
+theorem escapeText_spec (s : Str) :
+    decodeRefs (escapeText s) = some s ∧ '<' ∉ escapeText s ∧ '\r' ∉ escapeText s := by
+  rw [escapeText_eq]
+  refine ⟨decodeRefs_escText s, ?_, ?_⟩
+  · intro h; obtain ⟨c, _, hc⟩ := List.mem_flatMap.mp h; exact (escTextChar_forbidden c _ hc).1 rfl
+  · intro h; obtain ⟨c, _, hc⟩ := List.mem_flatMap.mp h; exact (escTextChar_forbidden c _ hc).2 rfl
+
+theorem escapeDecl_eq (s : Str) : escapeDecl s = s.flatMap escAttrQChar := by
+  unfold escapeDecl
+  rw [escape_eq, replaceChar_flatMap, replaceChar_flatMap, replaceChar_flatMap, replaceChar_flatMap]
+  congr 1
+  funext c
+  unfold escAttrQChar escAttrChar
+  by_cases h0 : c = '"'
+  · subst h0; decide
+  · by_cases h1 : c = '&'
+    · subst h1; decide
+    · by_cases h2 : c = '>'
+      · subst h2; decide
+      · by_cases h3 : c = '<'
+        · subst h3; decide
+        · by_cases h4 : c = '\n'
+          · subst h4; decide
+          · by_cases h5 : c = '\r'
+            · subst h5; decide
+            · by_cases h6 : c = '\t'
+              · subst h6; decide
+              · simp [escChar, h0, h1, h2, h3, h4, h5, h6, replaceChar]
+
+/-- a namespace name inside `xmlns…="…"` as the repaired native writer writes it -/
+theorem escapeDecl_spec (s : Str) :
+    decodeRefs (escapeDecl s) = some s ∧ '<' ∉ escapeDecl s ∧ '"' ∉ escapeDecl s
+      ∧ '\n' ∉ escapeDecl s ∧ '\r' ∉ escapeDecl s ∧ '\t' ∉ escapeDecl s := by
+  rw [escapeDecl_eq]
+  refine ⟨decodeRefs_escAttrQ s, ?_, ?_, ?_, ?_, ?_⟩
+  · intro h; obtain ⟨c, _, hc⟩ := List.mem_flatMap.mp h; exact (escAttrQChar_forbidden c _ hc).1 rfl
+  · intro h; obtain ⟨c, _, hc⟩ := List.mem_flatMap.mp h; exact (escAttrQChar_forbidden c _ hc).2.2.2.2 rfl
+  · intro h; obtain ⟨c, _, hc⟩ := List.mem_flatMap.mp h; exact (escAttrQChar_forbidden c _ hc).2.1 rfl
+  · intro h; obtain ⟨c, _, hc⟩ := List.mem_flatMap.mp h; exact (escAttrQChar_forbidden c _ hc).2.2.1 rfl
+  · intro h; obtain ⟨c, _, hc⟩ := List.mem_flatMap.mp h; exact (escAttrQChar_forbidden c _ hc).2.2.2.1 rfl
+
+end Proofs.Escape
